@@ -47,6 +47,8 @@ type C17Case struct {
 	ClosedReads bool `json:"closed_reads,omitempty"`
 	// Tail: calls made on the closed client (setpid, nowait, close): every Close among them must be a no-op
 	Tail []string `json:"tail,omitempty"`
+	// CloseErrno: what closing the socket itself returns (EINTR: the descriptor is gone all the same)
+	CloseErrno int `json:"close_errno,omitempty"`
 }
 
 func (c C17Case) Describe() string {
@@ -54,6 +56,7 @@ func (c C17Case) Describe() string {
 	for i, o := range c.Ops {
 		fmt.Fprintf(&b, " %d %s u32=%d ack-errno=%d rules=%x noise=%d eintr=%d\n", i, o.K, o.U32, o.Errno, o.Rules, o.Noise, o.Eintr)
 	}
+	fmt.Fprintf(&b, " (closing the socket returns errno %d)", c.CloseErrno)
 	fmt.Fprintf(&b, " then Close x %d (sends during Close fail with errno %d), then WaitForPendingACKs x %d (reads on the closed socket fail: %v), then %v\n", c.Closes, c.CloseSendErrno, c.AfterClose, c.ClosedReads, c.Tail)
 	return b.String()
 }
@@ -81,6 +84,9 @@ func genC17(t *rapid.T) C17Case {
 	c.Closes = rapid.SampledFrom([]int{0, 1, 1, 2, 3, 4}).Draw(t, "closes")
 	if rapid.IntRange(0, 4).Draw(t, "closesendfails") == 0 {
 		c.CloseSendErrno = rapid.SampledFrom([]int{int(syscall.ENOBUFS), int(syscall.EPERM), int(syscall.ECONNREFUSED), int(syscall.EBADF)}).Draw(t, "closesenderrno")
+	}
+	if c.Closes > 0 && rapid.IntRange(0, 3).Draw(t, "closefails") == 0 {
+		c.CloseErrno = rapid.SampledFrom([]int{int(syscall.EINTR), int(syscall.EIO), int(syscall.EBADF), int(syscall.EINTR)}).Draw(t, "closeerrno")
 	}
 	if c.Closes > 0 {
 		c.AfterClose = rapid.SampledFrom([]int{0, 0, 1, 2}).Draw(t, "afterclose")
@@ -274,6 +280,9 @@ func propC17(c C17Case) error {
 	logBefore := len(k.Log)
 	if c.CloseSendErrno != 0 {
 		k.SendErr = syscall.Errno(c.CloseSendErrno)
+	}
+	if c.CloseErrno != 0 {
+		k.CloseErr = syscall.Errno(c.CloseErrno)
 	}
 	for j := 0; j < c.Closes; j++ {
 		_ = cl.Close() // the return value of later calls is not specified
